@@ -27,7 +27,7 @@ INFO = {
     'assumptions': ['sanity rules as listed in binary-format.rst; cyclic signing among nodes is not one of the documented '
                     'model rules (either verdict is admitted there)'],
 }
-MANDATORY = {'model': ['rejects-iff-rule-broken'], 'text': ['ill-formed-schema-rejected']}
+MANDATORY = {'model': ['rejects-iff-rule-broken'], 'text': ['ill-formed-schema-rejected', 'compiler-accepts-catalogue-schema']}
 
 
 class _Budget(Exception):
@@ -321,7 +321,7 @@ def h_text(eng, case):
     from ndn.app_support.light_versec.compiler import SemanticError
     text = case['text']
     kind = case['kind']
-    if kind == 'none':
+    if kind in ('none', 'compiles'):
         bad = text
     else:
         bad = inject(text, kind, case.get('k', 0))
@@ -334,9 +334,10 @@ def h_text(eng, case):
         # passes the loader depends on node-level signing cycles, which the statement excludes
         try:
             compile_lvs(text)
+            compile_lvs(text)          # and once more: compiling must not depend on what was compiled before
         except Exception as e:
             err = exc_sig(e)
-        eng.check(err is None, 'error-free-schema-accepted', {'err': err, 'schema': case.get('schema')},
+        eng.check(err is None, 'compiler-accepts-catalogue-schema', {'err': err, 'schema': case.get('schema')},
                   sig='compiler-rejects-error-free:%s' % err)
         eng.observe('err', err)
         eng.reach('end')
